@@ -22,7 +22,7 @@ Open Scope N_scope.
 
 Inductive cond :=
 | CBackMainPhase | CBackTerminated | CBackError | CBackCompleted | CBackConsumed
-| CFrontConsumed | CKeepAliveBackend | CFrontIsH2.
+| CFrontConsumed | CKeepAliveBackend | CFrontIsH2 | CBackInterim.
 
 Inductive bexp := BC (c : cond) | BNot (b : bexp) | BOr (a b : bexp) | BAnd (a b : bexp).
 
@@ -104,7 +104,7 @@ Record tables := mkT {
 (** * The hand mirror of the source (what the theorems are proved about) *)
 
 Definition spec_esd : dtree :=
-  Ite (BC CBackMainPhase)
+  Ite (BAnd (BC CBackMainPhase) (BNot (BC CBackInterim)))
       (Ite (BC CBackTerminated) (Leaf [EAct AForwardTerminated])
            (Ite (BNot (BC CKeepAliveBackend)) (Leaf [EAct ACloseDelimited])
                 (Leaf [EAct AForwardUnterminated])))
@@ -137,7 +137,7 @@ Definition spec_ft (s : sstate) : dtree :=
   end.
 
 Definition spec_bt : dtree :=
-  Ite (BOr (BC CBackTerminated) (BC CBackError))
+  Ite (BOr (BAnd (BC CBackTerminated) (BNot (BC CBackInterim))) (BC CBackError))
       (Ite (BNot (BC CBackCompleted)) (Leaf [EWait]) (Leaf []))
       (Ite (BNot (BC CBackConsumed)) (Leaf [EUnlink; EAns (Lit 504); EWrite])
            (Leaf [EUnlink; EForce; EWrite])).
@@ -176,6 +176,9 @@ Definition is_error (p : phase) : bool := match p with PError => true | _ => fal
 (** where the content of the response buffer comes from *)
 Inductive origin := ONone | OBackend | ODefault | OForced.
 
+(** what kind of non-final response the response buffer holds (the H1 parser marks all of them Terminated) *)
+Inductive interim := NoInterim | I100 | I103 | I101.
+
 Record stream := mkS {
   s_state : sstate;
   s_attempts : nat;         (* stream.attempts *)
@@ -187,7 +190,8 @@ Record stream := mkS {
   s_origin : origin;        (* ghost: who produced the response buffer *)
   s_done : bool;            (* ghost: a final verdict (relay end / default / abort) was emitted *)
   s_clean : bool;           (* ghost: the backend ended its response cleanly *)
-  s_ropen : bool            (* !front.is_terminated(): the request body is still arriving *)
+  s_ropen : bool;           (* !front.is_terminated(): the request body is still arriving *)
+  s_interim : interim       (* the response buffer holds a 100 / 103 / 101 *)
 }.
 
 Record conn := mkC {
@@ -209,6 +213,7 @@ Definition valuation (c : conn) (s : stream) (x : cond) : bool :=
   | CFrontConsumed => s_fcons s
   | CKeepAliveBackend => s_ka s
   | CFrontIsH2 => c_h2 c
+  | CBackInterim => match s_interim s with I100 | I103 => true | _ => false end
   end.
 
 (** events the life cycle emits (what a client could observe, plus markers) *)
@@ -222,26 +227,28 @@ Inductive ev :=
 | EvWait                  (* a timer fired and the session decided to keep waiting *)
 | EvClose                 (* session closed by the proxy *)
 | EvClientGone            (* the client went away *)
-| EvRecycle.              (* the slot is reset for the next request *)
+| EvRecycle               (* the slot is reset for the next request *)
+| EvInterim               (* an interim response (100 / 103) was written to the client *)
+| EvUpgrade.              (* a 101 was written: the session leaves the mux for a pipe *)
 
 (** status actually rendered for a requested code (default_answer_for_code's catch-all is 503) *)
 Definition resolved (T : tables) (code : N) : N :=
   if existsb (N.eqb code) (t_known_codes T) then code else 503.
 
 Definition set_state (s : stream) (x : sstate) : stream :=
-  mkS x (s_attempts s) (s_fcons s) (s_phase s) (s_bcons s) (s_pending s) (s_ka s) (s_origin s) (s_done s) (s_clean s) (s_ropen s).
+  mkS x (s_attempts s) (s_fcons s) (s_phase s) (s_bcons s) (s_pending s) (s_ka s) (s_origin s) (s_done s) (s_clean s) (s_ropen s) (s_interim s).
 Definition set_attempts (s : stream) (n : nat) : stream :=
-  mkS (s_state s) n (s_fcons s) (s_phase s) (s_bcons s) (s_pending s) (s_ka s) (s_origin s) (s_done s) (s_clean s) (s_ropen s).
+  mkS (s_state s) n (s_fcons s) (s_phase s) (s_bcons s) (s_pending s) (s_ka s) (s_origin s) (s_done s) (s_clean s) (s_ropen s) (s_interim s).
 Definition set_fcons (s : stream) (b : bool) : stream :=
-  mkS (s_state s) (s_attempts s) b (s_phase s) (s_bcons s) (s_pending s) (s_ka s) (s_origin s) (s_done s) (s_clean s) (s_ropen s).
+  mkS (s_state s) (s_attempts s) b (s_phase s) (s_bcons s) (s_pending s) (s_ka s) (s_origin s) (s_done s) (s_clean s) (s_ropen s) (s_interim s).
 Definition set_ka (s : stream) (b : bool) : stream :=
-  mkS (s_state s) (s_attempts s) (s_fcons s) (s_phase s) (s_bcons s) (s_pending s) b (s_origin s) (s_done s) (s_clean s) (s_ropen s).
+  mkS (s_state s) (s_attempts s) (s_fcons s) (s_phase s) (s_bcons s) (s_pending s) b (s_origin s) (s_done s) (s_clean s) (s_ropen s) (s_interim s).
 Definition set_back (s : stream) (p : phase) (bc pend : bool) (o : origin) : stream :=
-  mkS (s_state s) (s_attempts s) (s_fcons s) p bc pend (s_ka s) o (s_done s) (s_clean s) (s_ropen s).
+  mkS (s_state s) (s_attempts s) (s_fcons s) p bc pend (s_ka s) o (s_done s) (s_clean s) (s_ropen s) (s_interim s).
 Definition set_done (s : stream) (b : bool) : stream :=
-  mkS (s_state s) (s_attempts s) (s_fcons s) (s_phase s) (s_bcons s) (s_pending s) (s_ka s) (s_origin s) b (s_clean s) (s_ropen s).
+  mkS (s_state s) (s_attempts s) (s_fcons s) (s_phase s) (s_bcons s) (s_pending s) (s_ka s) (s_origin s) b (s_clean s) (s_ropen s) (s_interim s).
 Definition set_clean (s : stream) (b : bool) : stream :=
-  mkS (s_state s) (s_attempts s) (s_fcons s) (s_phase s) (s_bcons s) (s_pending s) (s_ka s) (s_origin s) (s_done s) b (s_ropen s).
+  mkS (s_state s) (s_attempts s) (s_fcons s) (s_phase s) (s_bcons s) (s_pending s) (s_ka s) (s_origin s) (s_done s) b (s_ropen s) (s_interim s).
 Definition set_arm (c : conn) (i e : bool) : conn :=
   mkC (c_h2 c) i e (c_ftimer c) (c_btimer c) (c_closed c).
 Definition set_timers (c : conn) (f b : bool) : conn :=
@@ -250,8 +257,10 @@ Definition set_closed (c : conn) : conn :=
   mkC (c_h2 c) (c_int_w c) (c_ev_w c) false false true.
 
 Definition set_ropen (s : stream) (b : bool) : stream :=
-  mkS (s_state s) (s_attempts s) (s_fcons s) (s_phase s) (s_bcons s) (s_pending s) (s_ka s) (s_origin s) (s_done s) (s_clean s) b.
-Definition fresh : stream := mkS SIdle 0 false PStatusLine false false true ONone false false false.
+  mkS (s_state s) (s_attempts s) (s_fcons s) (s_phase s) (s_bcons s) (s_pending s) (s_ka s) (s_origin s) (s_done s) (s_clean s) b (s_interim s).
+Definition set_interim (s : stream) (i : interim) : stream :=
+  mkS (s_state s) (s_attempts s) (s_fcons s) (s_phase s) (s_bcons s) (s_pending s) (s_ka s) (s_origin s) (s_done s) (s_clean s) (s_ropen s) i.
+Definition fresh : stream := mkS SIdle 0 false PStatusLine false false true ONone false false false NoInterim.
 
 Record outcome := mkO { o_s : stream; o_c : conn; o_ev : list ev; o_wait : bool; o_write : bool }.
 
@@ -273,14 +282,14 @@ Fixpoint apply_simple (effs : list eff) (s : stream) (c : conn) : stream * conn 
     rendered template is copied in, an end_stream flag is ensured, phase :=
     Terminated; then the helper's own effects (state, arm). *)
 Definition default_answer (T : tables) (code : N) (s : stream) (c : conn) : stream * conn * list ev :=
-  let s1 := set_done (set_back s PTerminated false true ODefault) true in
+  let s1 := set_interim (set_done (set_back s PTerminated false true ODefault) true) NoInterim in
   let '(s2, c2) := apply_simple (t_default_effs T) s1 c in
   (s2, c2, [EvDefault (resolved T code)]).
 
 (** forcefully_terminate_answer: out and blocks cleared, phase := Error *)
 Definition force_answer (T : tables) (s : stream) (c : conn) : stream * conn * list ev :=
   let started := s_bcons s in
-  let s1 := set_done (set_back s PError (s_bcons s) false OForced) true in
+  let s1 := set_interim (set_done (set_back s PError (s_bcons s) false OForced) true) NoInterim in
   let '(s2, c2) := apply_simple (t_force_effs T) s1 c in
   (s2, c2, [EvAbort started]).
 
@@ -337,6 +346,8 @@ Inductive input :=
 | IReqBodyEnd                   (* the end of the request body was parsed *)
 | IConnect (r : option cause)   (* the pending link is served by Router::connect; None = linked to a backend *)
 | IReqSent                      (* request bytes written to the backend *)
+| IBack1xx (hints : bool)       (* an interim response: 100 Continue, or 103 Early Hints *)
+| IBack101                      (* 101 Switching Protocols *)
 | IBackPartial                  (* backend bytes parsed, response head incomplete *)
 | IBackHead                     (* response head complete (phase Body) *)
 | IBackEnd                      (* response cleanly terminated *)
@@ -427,6 +438,25 @@ Definition step (T : tables) (redir : option N) (sc : stream * conn) (i : input)
     | SLinked => (set_fcons s true, c, [])
     | _ => (s, c, [])
     end
+  | IBack1xx hints =>
+    (* h1.rs readable: the parser ends a 1xx message at once (Terminated); its end flags are
+       cleared, the frontend is woken; READABLE stays so that the final response can follow *)
+    match s_state s, s_phase s, s_interim s with
+    | SLinked, PStatusLine, NoInterim =>
+      if s_fcons s then
+        (set_interim (set_back s PTerminated (s_bcons s) true OBackend) (if hints then I103 else I100),
+         set_arm c true true, [])
+      else (s, c, [])
+    | _, _, _ => (s, c, [])
+    end
+  | IBack101 =>
+    match s_state s, s_phase s, s_interim s with
+    | SLinked, PStatusLine, NoInterim =>
+      if s_fcons s then
+        (set_interim (set_back s PTerminated (s_bcons s) true OBackend) I101, set_arm c true true, [])
+      else (s, c, [])
+    | _, _, _ => (s, c, [])
+    end
   | IBackPartial =>
     match s_state s, s_phase s with
     | SLinked, PStatusLine => (set_back s PHeaders (s_bcons s) true OBackend, c, [])
@@ -464,6 +494,24 @@ Definition step (T : tables) (redir : option N) (sc : stream * conn) (i : input)
     if negb (armed c) then (s, c, []) else
     (* H2 write_streams only touches a stream in main phase / terminated / error *)
     if c_h2 c && negb (is_main_phase (s_phase s) || is_error (s_phase s)) then (s, set_arm c false (c_ev_w c), []) else
+    if s_pending s && match s_interim s with NoInterim => false | _ => true end then
+      (* h1.rs writable (h2.rs handle_1xx_reset): a completely written 100 / 103 clears the
+         response buffer and the exchange goes on; a 101 hands the session over to a pipe *)
+      if all then
+        match s_interim s with
+        | I101 => (set_done s true, set_closed c, [EvUpgrade])
+        | I103 =>
+          match s_state s with
+          | SLinked => (set_interim (set_back s PStatusLine false false ONone) NoInterim, set_arm c false (c_ev_w c), [EvInterim])
+          | _ => (set_interim (set_back s PStatusLine false false ONone) NoInterim, set_closed c, [EvInterim; EvClose])
+          end
+        | _ =>
+          (* the pass that follows finds nothing to write and drops the WRITABLE interest
+             (observed: a partial final head that came with the interim is not written) *)
+          (set_interim (set_back s PStatusLine false false ONone) NoInterim, set_arm c false (c_ev_w c), [EvInterim])
+        end
+      else (set_back s (s_phase s) true true (s_origin s), c, [])
+    else
     if s_pending s then
       let start := match s_origin s with OBackend => negb (s_bcons s) | _ => false end in
       let evs0 := if start then [EvRelayStart] else [] in
@@ -547,7 +595,7 @@ Definition step2 (T : tables) (redir : option N) (s1 s2 : stream) (k : conn2) (l
     client's own inputs and the frontend write pass / frontend timer *)
 Definition backend_side (i : input) : bool :=
   match i with
-  | IConnect _ | IReqSent | IBackPartial | IBackHead | IBackEnd | IBackNoKeepAlive
+  | IConnect _ | IReqSent | IBack1xx _ | IBack101 | IBackPartial | IBackHead | IBackEnd | IBackNoKeepAlive
   | IBackClose | IBackGarbage | IBackTimeout => true
   | _ => false
   end.
